@@ -74,6 +74,7 @@ class Analysis:
         self.fn = fn
         self.body = body or fn.body
         self.sites = []    # (bb, line, variant, interval value)
+        self.casts = []    # (target type, source interval) for every IntToInt cast seen (last visit)
 
     def local_ty(self, l):
         return self.body.locals[l]["ty"]
@@ -159,6 +160,7 @@ class Analysis:
             a = self.operand(env, r["o"])
             ck = r["ck"]
             if ck == "IntToInt" and is_int(a):
+                self.casts.append((r["ty"], a))
                 tr = TYPE_RANGE.get(r["ty"])
                 if tr and tr[0] <= a[1] and a[2] <= tr[1]:
                     return a
